@@ -203,6 +203,14 @@ def obligations(tier):
         plan.append(("sync-serial", "rtu", fc, L, 1))
         if tier != "quick":
             plan.append(("sync-tcp", "rtu", fc, L, 1))
+    # the serial-style front-end has ONE connection: "keeps serving" means the same port answers later requests
+    # (harness shared with C11: garbage, then four valid requests, the last two must be answered)
+    from harness import c11
+    for fr, kind, G in ((("ascii", "raw", 3), ("ascii", "raw", 4), ("ascii", "delims", 3)) if tier == "quick" else
+                        (("ascii", "raw", 3), ("ascii", "raw", 4), ("ascii", "raw", 5), ("ascii", "raw", 6), ("ascii", "delims", 3), ("ascii", "delims", 4), ("binary", "delims", 3))):
+        out.append(Obl("sameport.sync-serial.%s.%s.g%d" % (fr, kind, G), c11.make_handler(fr, kind, G), timeout=T, contracts=contracts[fr], lemmas=lem[fr],
+                       bounds="real serial-style handler, %s framing: %d bytes (%s) in one read, then four valid FC6 requests on the same port: at least the last two are answered" % (
+                           fr, G, "any" if kind == "raw" else "a mix of delimiter characters")))
     for fe, fr, fc, L, reads in plan:
         out.append(Obl("any.%s.%s.fc%d.len%d.reads%d" % (fe, fr, fc, L, reads), make_any(fe, fr, fc, L, reads), timeout=T,
                        contracts=contracts[fr], lemmas=lem[fr], findings=("KF-ascii-lenient-lrc-field",) if fr == "ascii" and reads == 1 else (),
